@@ -509,11 +509,7 @@ func gen(g *fw.Gen) {
 			if j%8 == int(l) {
 				// an invalid variant of the sentence
 				w := list.Encode(ent)
-				kind := g.Rng.Intn(6)
-				if kind == 5 && g.Rng.Intn(8) != 0 {
-					kind = 1 // the collision search is expensive: one in eight
-				}
-				switch kind {
+				switch g.Rng.Intn(5) {
 				case 4: // words cut to their unique four-letter prefix (one, or all that have one)
 					all := g.Rng.Intn(2) == 0
 					for _, k := range g.Rng.Perm(len(w)) {
@@ -523,22 +519,6 @@ func gen(g *fw.Gen) {
 								break
 							}
 						}
-					}
-				case 5: // a non-word that collides with the list word in its place under a common 32-bit digest
-					d := wordhack.Digests[g.Rng.Intn(len(wordhack.Digests))]
-					if cs, idx, ok := wordhack.FindCollision(g.Rng, list, l, d, 6000000); ok {
-						// put the list word it collides with into a sentence whose checksum fits, then swap it in
-						e2 := append([]byte(nil), ent...)
-						j := g.Rng.Intn(len(e2) * 8 / 11)
-						for b := 0; b < 11; b++ {
-							pos := 11*j + b
-							bit := byte(idx>>uint(10-b)) & 1
-							e2[pos/8] = e2[pos/8]&^(0x80>>uint(pos%8)) | bit<<uint(7-pos%8)
-						}
-						w = list.Encode(e2)
-						w[j] = cs
-					} else {
-						w[0] = "notaword"
 					}
 				case 0:
 					w = w[:len(w)-1]
@@ -554,6 +534,37 @@ func gen(g *fw.Gen) {
 			}
 			if j%8 == 2+int(l) {
 				g.Emit("seed_variant", fw.Pack([]byte{l}, g.Bytes(16+4*g.Rng.Intn(13)), []byte{byte(g.Rng.Intn(4))}, []byte(string(ln.S)), []byte(string(ln.N))))
+			}
+		}
+	}
+	// a non-word that collides with the list word in its place under a common 32-bit digest: one case per
+	// (digest, list) in the quick tier, four in the thorough tier, spread over the shards
+	if len(pending) > 0 {
+		k := 0
+		for rep := 0; rep < g.Pick(1, 4); rep++ {
+			for l := byte(0); l < 2; l++ {
+				list := bip39m.Lang(lang(l))
+				for _, d := range wordhack.Digests {
+					k++
+					if !g.Own(k) || g.Build == "386" {
+						continue
+					}
+					cs, idx, ok := wordhack.FindCollision(g.Rng, list, l, d, 12000000)
+					if !ok {
+						continue
+					}
+					e2 := g.Bytes(16 + 4*g.Rng.Intn(13))
+					j := g.Rng.Intn(len(e2) * 8 / 11)
+					for b := 0; b < 11; b++ {
+						pos := 11*j + b
+						bit := byte(idx>>uint(10-b)) & 1
+						e2[pos/8] = e2[pos/8]&^(0x80>>uint(pos%8)) | bit<<uint(7-pos%8)
+					}
+					w := list.Encode(e2)
+					w[j] = cs
+					ln := pending[g.Rng.Intn(len(pending))]
+					g.Emit("seed_invalid", fw.Pack([]byte{l}, []byte(strings.Join(w, "\x00")), []byte(string(ln.S))))
+				}
 			}
 		}
 	}
